@@ -131,6 +131,23 @@ func runRound(ci interface{}, s *vkit.Stats) error {
 			return nil
 		}})
 	}
+	// (3) a conditional stub whose callers pass different arguments: each caller must get the result of its own condition
+	if pv := guard(func() {
+		sb.Func(corpus.Z003).Return(-1).When(1).Return(100).When(2).Return(200).When(3).Return(300).When(4).Return(400)
+	}); pv != nil {
+		return fmt.Errorf("steady conditional stub on Z003 panicked: %v", pv)
+	}
+	steadies = append(steadies, steady{"Z003 when", func(i int) error {
+		k := i%5 + 1
+		want := k * 100
+		if k == 5 {
+			want = -1
+		}
+		if got := corpus.Z003(k); got != want {
+			return fmt.Errorf("steady Z003 (When(k).Return(100k), default -1): Z003(%d) = %d, want %d", k, got, want)
+		}
+		return nil
+	}})
 	if frameless(corpus.Z007) {
 		if pv := guard(func() {
 			sb.Func(corpus.Z007).Origin(&corpus.OZ007).Apply(func(x float64) float64 { return corpus.OZ007(x) + 0.5 })
@@ -338,7 +355,7 @@ func TestVerifC11(t *testing.T) {
 		}
 	}
 	for _, fn := range corpus.Zoo {
-		if fn.Name == "Z016" || fn.Name == "Z007" {
+		if fn.Name == "Z016" || fn.Name == "Z007" || fn.Name == "Z003" {
 			continue
 		}
 		b := mocker.Create()
